@@ -190,7 +190,7 @@ type c16Gate struct {
 }
 
 func (g *c16Gate) fn(phase, method string, conn *redis.Conn) {
-	if phase != "before" {
+	if phase != "before" && phase != "mid" {
 		return
 	}
 	sc, ok := conn.Conn.(*connsim.ScriptConn)
@@ -217,6 +217,7 @@ func (g *c16Gate) fn(phase, method string, conn *redis.Conn) {
 func runControlled(init [][]string, rounds [][3]interface{}) (c16History, error) {
 	srv := redis.NewServer()
 	store := doubles.NewRefStore()
+	store.SplitRMW = true // a handler that relies on commands being executed one at a time
 	srv.SetCommandHandler(store)
 	g := &c16Gate{holdCl: -1, count: map[int]int{}}
 	store.Gate = g.fn
@@ -473,6 +474,47 @@ func TestC16(t *testing.T) {
 		}
 		canon := []byte(fmt.Sprint(hist.Init, hist.Ops))
 		h.Col.Case(overlapping(hist), canon, "controlled-rounds", "store:refstore")
+		h.Fail(rt, "c16.history", hist, evalC16History(hist))
+	})
+
+	// (b') uncontrolled "hammer": many clients issuing the same kind of read-modify-write command on one key
+	h.Rapid("hammer", h.N(150, 3000), func(rt *rapid.T) {
+		p := c16Plan{Store: rapid.SampledFrom([]string{"example", "example", "refstore"}).Draw(rt, "store")}
+		kind := rapid.SampledFrom([]string{"GETSET", "SETNX", "INCR", "APPEND", "DECRBY", "MSETNX", "mixed"}).Draw(rt, "kind")
+		if rapid.Bool().Draw(rt, "init") {
+			p.Init = append(p.Init, []string{"SET", "a", "5"})
+		}
+		nc := rapid.IntRange(4, 8).Draw(rt, "clients")
+		for i := 0; i < nc; i++ {
+			var ops [][]string
+			for j, k := 0, rapid.IntRange(1, 3).Draw(rt, "nops"); j < k; j++ {
+				v := strconv.Itoa(10*i + j)
+				switch kind {
+				case "GETSET":
+					ops = append(ops, []string{"GETSET", "a", v})
+				case "SETNX":
+					ops = append(ops, []string{"SETNX", "a", v})
+				case "INCR":
+					ops = append(ops, []string{"INCR", "a"})
+				case "APPEND":
+					ops = append(ops, []string{"APPEND", "a", strconv.Itoa(i)})
+				case "DECRBY":
+					ops = append(ops, []string{"DECRBY", "a", "1"})
+				case "MSETNX":
+					ops = append(ops, []string{"MSETNX", "a", v, "b", v})
+				default:
+					ops = append(ops, c16GenOp(rt, 1))
+				}
+			}
+			p.Clients = append(p.Clients, ops)
+		}
+		hist, err := runUncontrolled(p)
+		if err != nil {
+			h.Fail(rt, "c16.history", hist, failf("c16|run-error|"+p.Store, "uncontrolled run failed: %v", err))
+			return
+		}
+		sort.Slice(hist.Ops, func(i, j int) bool { return hist.Ops[i].Call < hist.Ops[j].Call })
+		h.Col.Case(overlapping(hist), []byte(fmt.Sprint(hist.Store, hist.Init, hist.Ops)), "hammer:"+kind, "store:"+p.Store)
 		h.Fail(rt, "c16.history", hist, evalC16History(hist))
 	})
 
